@@ -13,14 +13,14 @@ PROP = {
              "eval.State through the REAL repl.EvalOne (file mode, ShowEval, NoColor, NilAndErr; State.Out and EvalOne's out are two "
              "distinct writers), in 4 configurations (cache on/off x registers on/off). Per input: bytes written to State.Out, bytes "
              "EvalOne printed as the result, errs>0, panicked, continuation, and afterwards depth, scope-at-root, State.Out identity, "
-             "root register count, delta of the globals dump. Failing inputs (86 texts): language errors at top level; errors inside "
+             "root register count, delta of the globals dump. Failing inputs (107 texts; the last 21, incl. failures that pass through catch(), from session2.go): language errors at top level; errors inside "
              "nested calls, lambdas, recursion and loops; counted loops with a variable at nesting 1-3 at top level (written "
              "`for i = i:i+N` so that the no-register configuration stores the value the global already has) and inside functions; "
              "recovered panics of the allocation guard at top level / inside calls / inside loops (no other Go panic is reachable: the C07 "
              "stream finds none in 90000 sessions); depth overflow (MaxDepth 200-400, unbounded recursion defined in the base history or "
              "anonymous via self) at top level, inside calls, loops and argument lists; deadline (MaxDuration 1 ms on side-effect-free "
              "infinite loops - only 'it fails and leaves no trace' is required, not when); parse errors; incomplete input in line mode. "
-             "Base histories: 7 hand-written families after a 7-input prelude (print inside functions and cached output replay, "
+             "Base histories: 9 hand-written families after a 7-input prelude (print inside functions and cached output replay, "
              "counted loops nested to depth 4 after failed loops, recursion after a depth overflow, closures and index assignment, "
              "scoping, redefinition of a memoized function, every printed result kind) with every failing input x one position "
              "(thorough: every position) x multiplicity 1-3; 8-15 failing loops in a row; every kind mixed at every position; "
@@ -55,8 +55,7 @@ LEVEL = {
              "top-level state, after ANY input (normal, error, Go panic, depth guard) scope = root and depth = 0 (reset; by induction "
              "over the whole evaluator: eval_restores, eval_keeps); an input whose final state has the heap, cache and in-place-write log (St.hazards, "
              "C06/C19 instrumentation) it started with leaves no trace for any continuation (no_trace). The full statement (heap grown by unreachable frames, cache unchanged) "
-             "is stated as C10.Statement and not proved. One listed finding: with the cache on, a failing input leaves cached "
-             "closures behind (C04's closure-result class)."),
+             "is stated as C10.Statement and not proved. No open finding (the cached-closure class is closed by repo fix a3f15b1)."),
     "design_ref": "DESIGN.md section 7, C10",
     "note": ("Trusted: Lean kernel; axioms propext/Classical.choice/Quot.sound only; the evaluator model is tied to the code by the eval and "
              "session correspondence runs; harness canonicalisation. The two defects seen by hand (State.Out left on a call's buffer after a "
